@@ -29,7 +29,7 @@ def run(ctx):
     for mr in models(ctx.quick):
         res = npx.run_model(ctx, mr, coverage=not ctx.quick)
         alph = ["ACD", "CWY", "a-#"] if len(mr.kw["letters"]) == 3 else ["AC", "WY", "xy"]
-        npx.replay_emitted(ctx, res, alph)
+        npx.replay_emitted(ctx, res, alph, budget=None if ctx.quick else 60000)
     ctx.exhaustive = True
     # ---- T: universes ("all pairs in one call") and random repertoires
     sessions = []
